@@ -384,6 +384,12 @@ func c08(c *Ctx) (*report.Result, error) {
 		}
 	}
 	checkBackoffLoops(c, res, "O8.7")
+	res.RuleDoc["O8.8"] = "no blocking operation under the registries' locks: inside the critical sections of package proxy's mutexes (shard manager, intra-proxy manager, streams) the only potentially blocking operations are the reviewed ones - memberlist API calls under mlMutex, whose purpose is to serialise them, and closing a peer connection that is being replaced; channel operations, stream I/O, sleeps, waits and calls through function values (callbacks) happen outside the locks"
+	if spx, err := c.Prog.SSAPkg("proxy"); err == nil {
+		checkNoBlockingUnderLock(c, res, "O8.8", []*ssa.Package{spx}, func(owner, field string) bool {
+			return owner != "ReplicationStreamObserver" && owner != "StreamTracker"
+		}, proxyLockAllowed)
+	}
 	return res, nil
 }
 
@@ -730,4 +736,17 @@ func checkBackoffLoops(c *Ctx, res *report.Result, rule string) {
 		res.Undec(rule, "back-off loops of package proxy", "", fmt.Sprintf("%d found, 5 confirmed by hand", n))
 	}
 	res.Analysed["backoff_loops"] = n
+}
+
+// proxyLockAllowed: reviewed blocking operations under package proxy's locks.
+var proxyLockAllowed = map[string]string{
+	"(*proxy.intraProxyManager).ensurePeer [streamsMu]: call (*google.golang.org/grpc.ClientConn).Close":                              "the replaced peer connection is closed while the peer table is locked; ClientConn.Close does not wait for RPCs",
+	"(*proxy.shardEventDelegate).NotifyLeave [mlMutex]: call (*github.com/hashicorp/memberlist.Memberlist).NumMembers":                "mlMutex exists to serialise memberlist API calls; NumMembers reads local state",
+	"(*proxy.shardManagerImpl).RegisterShard$1 [mlMutex]: call (*github.com/hashicorp/memberlist.Memberlist).UpdateNode":               "mlMutex exists to serialise memberlist API calls; runs in its own goroutine",
+	"(*proxy.shardManagerImpl).UnregisterShard$1 [mlMutex]: call (*github.com/hashicorp/memberlist.Memberlist).UpdateNode":             "mlMutex exists to serialise memberlist API calls; runs in its own goroutine",
+	"(*proxy.shardManagerImpl).broadcastShardChange$1 [mlMutex]: call (*github.com/hashicorp/memberlist.Memberlist).Members":           "mlMutex exists to serialise memberlist API calls; runs in its own goroutine",
+	"(*proxy.shardManagerImpl).broadcastShardChange$1 [mlMutex]: call (*github.com/hashicorp/memberlist.Memberlist).SendReliable":      "mlMutex exists to serialise memberlist API calls; runs in its own goroutine",
+	"(*proxy.shardManagerImpl).retryJoinCluster [mlMutex]: call (*github.com/hashicorp/memberlist.Memberlist).Join":                    "mlMutex exists to serialise memberlist API calls",
+	"(*proxy.shardManagerImpl).shutdownMemberlist [mlMutex]: call (*github.com/hashicorp/memberlist.Memberlist).Leave":                 "mlMutex exists to serialise memberlist API calls (shutdown)",
+	"(*proxy.shardManagerImpl).shutdownMemberlist [mlMutex]: call (*github.com/hashicorp/memberlist.Memberlist).Shutdown":              "mlMutex exists to serialise memberlist API calls (shutdown)",
 }
